@@ -37,6 +37,9 @@ class LogAgent(Agent):
     def act(self, time, round_no, step_no):
         self.model.clog.append(("act", self.id, float(time)))
         sc = self.model.script
+        if sc and sc["where"] == "act-raise" and tuple(sc["when"]) == (round_no, step_no) and self.id == sc["actor"]:
+            self.model.script = None          # (the caller repairs the cause before running again)
+            raise RuntimeError("agent failure injected by the harness")
         if sc and sc["where"] == "act" and tuple(sc["when"]) == (round_no, step_no) and self.model.agents and \
                 self.id == sc["actor"]:
             self.model.delete_agent(sc["victim"])
@@ -167,6 +170,22 @@ def run_case(case):
         want_times = [x[1] for x in want if x[0] == "stat"]
         if len(stats_times) != len(want_times) or any(not core.close(a, b) for a, b in zip(stats_times, want_times)):
             viol.append(("statistics-keys/%s" % driver, "recorded times %r, want %r" % (stats_times[:8], want_times[:8])))
+    elif driver == "rerun-after-error":
+        # a run in which a step raises (the caller handles it), then the same model is run again: the second run executes every step
+        m = mk_model(start, stop, dt, pop, "specs", script)
+        want = expected(start, stop, dt, pop, collect, None)
+        try:
+            m.run(show_progress_widget=False, collect_data=collect)
+            return [("harness/no-error-raised", "the injected failure did not surface")]
+        except RuntimeError:
+            pass
+        del m.clog[:]
+        try:
+            m.run(show_progress_widget=False, collect_data=collect)
+        except Exception as e:
+            return [("rerun-raises/%s" % type(e).__name__, repr(e))]
+        if not same(m.clog, want):
+            viol.append(("sequence/rerun-after-error", first_diff(m.clog, want)))
     elif driver == "steps":
         m = mk_model(0, stop, dt, pop, "specs", script)
         spr = round(1 / dt)
@@ -267,6 +286,15 @@ def cases(tier):
                         sc = {"when": list(when), "where": "act", "op": "delete", "actor": actor, "victim": victim}
                         out.append(("run-specs", 0, 2, dt, pop, True, sc))
                         out.append(("steps", 0, 2, dt, pop, True, sc))
+    # a step raises in the first run; the model is run again
+    for start, stop in ((0, 1), (-1, 0), (1, 2)):
+        for dt in (1, 0.5):
+            spr = round(1 / dt)
+            for when in sorted(set([(start, 0), (start, spr - 1), (stop, 0), (stop, spr - 1)])):
+                for pop in (["a"], ["a", "b", "a"]):
+                    for actor in sorted(set([0, len(pop) - 1])):
+                        for collect in (True, False):
+                            out.append(("rerun-after-error", start, stop, dt, pop, collect, {"when": list(when), "where": "act-raise", "actor": actor}))
     # every dt = 1/n
     for n in range(1, 129 if tier == "quick" else 257):
         out.append(("run-specs", 0, 1, 1.0 / n, ["a"], True, None))
@@ -294,7 +322,7 @@ def run(ctx):
         "samples": [list(c) for c in cs[:3]] + [list(cs[len(cs) // 2])],
         "rule": "complete lattice start in -2..2 x stop-start in 0..2 x dt in 1,.5,.25,.2,.125,.1 x 5 populations x collect_data x drivers "
                 "(Model.run with constructor / run_specs run specs, Model.run_step sequences, hybrid run through bptk.run_scenarios), plus "
-                "callback scripts creating/deleting an agent at the first/last step of the first/last round, agents deleting themselves or an "
+                "callback scripts creating/deleting an agent at the first/last step of the first/last round, a run that is repeated after a step raised, agents deleting themselves or an "
                 "earlier agent from inside act(), and a sweep over every dt = 1/n (n <= 128, thorough 256); states = runs, "
                 "transitions = expected callback invocations compared",
     }, assumptions=["agents are created from begin_round/end_round callbacks; deleted from those callbacks, or from act() when the victim is the acting agent itself or one created before it (deleting a later agent in mid-step is not defined by the statement)"])
